@@ -298,7 +298,13 @@ def _oracle_case(rep, rnd, tmp, n, state, version, rounds):
             got = None
         if (got == a) != (a in shadow):
             rep.violate('get(%r) disagrees with list()' % a, case)
+    default_before = SourceManager.default
+    for a in list(SourceManager.list()):
+        if a != alias2:
+            SourceManager.remove(a)
     SourceManager.remove(alias2)
+    if SourceManager.default is not default_before:
+        rep.violate('removing sources changed the default source', case)
     try:
         SourceManager.remove(alias2)
         rep.violate('removing a removed alias did not raise', case)
